@@ -218,6 +218,29 @@ pub fn check_span(text: &str, sp: &SpanInfo) -> Option<String> {
     None
 }
 
+/// In-memory modules for the `shape/usermod` family: bodies that cannot finish on their own when
+/// evaluated at compile time (they wait for a message, a timer, another process or an effect),
+/// bodies that fail, and controls. (A module that loops for ever is not among them: no front end
+/// can decide that.)
+pub const USER_MODULES: &[(&str, &str)] = &[
+    ("um_ok", "[a: 1, f: #'int { 2 }]"),
+    ("um_recv", "!'int"),
+    ("um_recv_fn", "!#'int { =x => x }"),
+    ("um_spawn", "@{ 1 }"),
+    ("um_spawn_await", "p = @{ 1 },\n!p"),
+    ("um_timer", "! [10]"),
+    ("um_self_send", "1 .,\n2"),
+    ("um_self_ref", "&."),
+    ("um_send_spawned", "p = @{ !'int },\n1 p,\n2"),
+    ("um_effect", "[0x61, 0, 0] __file_open__"),
+    ("um_fail", "[1, 0] __integer_divide__"),
+    ("um_nested", "%um_recv"),
+];
+
+pub fn user_modules() -> HashMap<Vec<String>, String> {
+    USER_MODULES.iter().map(|(n, b)| (vec![n.to_string()], b.to_string())).collect()
+}
+
 fn variant_name(debug: &str) -> String {
     debug
         .chars()
@@ -289,7 +312,9 @@ impl Evaluator {
             Some((p, m)) => (p.clone(), m.clone()),
             None => (Program::new(), ModuleCache::new()),
         };
-        let resolver = PackageResolver::inline();
+        // `inline()` is `memory(∅)`: the same resolver plus a fixed set of in-memory modules that
+        // only the `shape/usermod` texts mention (compilation evaluates an imported module).
+        let resolver = PackageResolver::memory(user_modules());
         let r = Compiler::compile(
             ast,
             &HashMap::new(),
